@@ -142,25 +142,60 @@ def seams(env):
     """Install the module-attribute seams of pymablock.block_diagonalization for one call."""
     import pymablock.block_diagonalization as bd
 
-    saved = (bd.solve_sylvester_diagonal, bd.matmul, bd.mul)
-    orig = bd.solve_sylvester_diagonal
+    import scipy.sparse.linalg as sla
 
-    def factory(*a, **k):
-        inner = orig(*a, **k)
+    saved = (bd.solve_sylvester_diagonal, bd.matmul, bd.mul, bd.solve_sylvester_direct, bd.solve_sylvester_KPM, sla.eigsh)
 
-        def solve_sylvester(Y, index):
-            env.tick("S", tuple(int(i) for i in index))
-            return inner(Y, index)
+    def wrap(orig):
+        def factory(*a, **k):
+            inner = orig(*a, **k)
 
-        return solve_sylvester
+            def solve_sylvester(Y, index):
+                env.tick("S", tuple(int(i) for i in index))
+                return inner(Y, index)
 
-    bd.solve_sylvester_diagonal = factory
+            return solve_sylvester
+
+        return factory
+
+    eigsh = sla.eigsh
+
+    def seeded_eigsh(A, *a, **k):
+        # the ARPACK start vector is the library's only result-affecting randomness (kpm.rescale)
+        if k.get("v0") is None:
+            k["v0"] = np.random.default_rng(20240925).normal(size=A.shape[0])
+        k.pop("rng", None)
+        return eigsh(A, *a, **k)
+
+    bd.solve_sylvester_diagonal = wrap(saved[0])
+    bd.solve_sylvester_direct = wrap(saved[3])
+    bd.solve_sylvester_KPM = wrap(saved[4])
     bd.matmul = env.mm
     bd.mul = env.mul
+    sla.eigsh = seeded_eigsh
     try:
         yield
     finally:
-        bd.solve_sylvester_diagonal, bd.matmul, bd.mul = saved
+        (bd.solve_sylvester_diagonal, bd.matmul, bd.mul, bd.solve_sylvester_direct, bd.solve_sylvester_KPM, sla.eigsh) = saved
+
+
+def scipy_shim():
+    """SciPy 1.18 refuses a LinearOperator subclass whose base __init__ was not called; ComplementProjector
+    does not call it.  Harness-only shim for implicit-mode worlds: a no-op where the class initialises its base."""
+    import pymablock.linalg as pl
+    from scipy.sparse.linalg import LinearOperator
+
+    if getattr(pl.ComplementProjector, "_verif_shim", False):
+        return
+    orig = pl.ComplementProjector.__init__
+
+    def init(self, *a, **k):
+        orig(self, *a, **k)
+        if not hasattr(self, "_xp"):
+            LinearOperator.__init__(self, self.dtype, self.shape)
+
+    pl.ComplementProjector.__init__ = init
+    pl.ComplementProjector._verif_shim = True
 
 
 # =========================================================================================
@@ -238,8 +273,15 @@ class Inputs:
                 from scipy import sparse
 
                 self.full = {o: sparse.csr_array(v) for o, v in self.full.items()}
-        # basis rotation for the eigenvector format
+        # basis rotation for the eigenvector formats
         self.vecs = None
+        if w["fmt"] == "implicit":
+            from scipy import sparse
+
+            Q, _ = np.linalg.qr(rg.normal(size=(N, N)) + (0 if w.get("real") else 1j) * rg.normal(size=(N, N)))
+            self.full = {o: sparse.csr_array(Q @ v @ Q.conj().T) for o, v in self.full.items()}
+            cols = [np.arange(self.offs[b], self.offs[b + 1]) for b in range(nb - 1)]
+            self.vecs = tuple(np.ascontiguousarray(Q[:, c]) for c in cols)  # the last block stays implicit
         if w["fmt"] == "scalar_vecs":
             Q, _ = np.linalg.qr(rg.normal(size=(N, N)) + 1j * rg.normal(size=(N, N)))
             if w["herm"]:
@@ -341,7 +383,10 @@ class Sim:
 
             self.H = BlockSeries(eval=hcb, shape=(inp.nb, inp.nb), n_infinite=inp.npert, name="Huser")
             self.h_is_series = True
-        elif fmt in ("scalar_idx", "scalar_vecs"):
+        elif fmt in ("scalar_idx", "scalar_vecs", "implicit"):
+            if fmt == "implicit":
+                scipy_shim()
+
             def hcb(*index):
                 index = tuple(int(i) for i in index)
                 return env.h_call(index, index, lambda: inp.full.get(index, zero))
@@ -367,7 +412,7 @@ class Sim:
             self.h_is_series = False
         else:
             raise ValueError(fmt)
-        if fmt == "scalar_vecs":
+        if fmt in ("scalar_vecs", "implicit"):
             self.kw["subspace_eigenvectors"] = inp.vecs
         elif fmt != "blocked":
             self.kw["subspace_indices"] = inp.idx
@@ -419,6 +464,9 @@ class Sim:
             kw["fully_diagonalize"] = dict(self.inp.masks[c])
         elif fd:
             kw["fully_diagonalize"] = tuple(fd)
+        if self.w["fmt"] == "implicit" and spec.get("kpm"):
+            kw["direct_solver"] = False
+            kw["solver_options"] = {"atol": 1e-3}
         if spec.get("solver") == "custom":
             kw["solve_sylvester"] = self._custom_solver(False)
         elif spec.get("solver") == "legacy":
@@ -465,6 +513,8 @@ class Sim:
             return comp["out"][SERIES.index(s)]
         if s.startswith("int:"):
             return comp["out"][0].eval.__globals__["series"][s[4:]]
+        if s.startswith("lin:"):
+            return comp["out"][0].eval.__globals__["linear_operator_series"][s[4:]]
         return comp["derived"][s]
 
     def derived_names(self, c):
@@ -506,6 +556,8 @@ def comp_names(world, c):
         names += ["d0", "d2"] + (["d1"] if (world["fmt"] == "blocked" and spec.get("chain") is None) else [])
     if world.get("internals"):
         names += internal_names(bool(spec["herm"]))
+        if world["fmt"] == "implicit":
+            names += ["lin:" + n[4:] for n in internal_names(bool(spec["herm"]))] + ["lin:H_tilde", "lin:U", "lin:U†"]
     return names
 
 
@@ -595,7 +647,9 @@ class GraphProp:
     check_mutation = True
     final_sweep = "sample"  # "all" | "sample" | None
     components_real = ["all of pymablock (series, algorithm_parsing, algorithms, block_diagonalization, linalg)"]
-    components_stub = ["Hamiltonian-term callback (simulator-owned user BlockSeries eval)",
+    components_stub = ["SciPy-1.18 shim: ComplementProjector.__init__ additionally calls LinearOperator.__init__ when the base was not initialised (implicit-mode worlds only, values untouched)",
+                       "scipy.sparse.linalg.eigsh start vector fixed while a KPM solver is constructed (the library's only result-affecting randomness)",
+                       "Hamiltonian-term callback (simulator-owned user BlockSeries eval)",
                        "Sylvester solver (real solver wrapped at the factory seam, or simulator-supplied caller solver)",
                        "element multiplication (logging/faulting wrapper around the real operator)",
                        "series names (token_hex counter)"]
@@ -866,6 +920,12 @@ class GraphProp:
             bump("chain_world")
         bump("domain_" + world["domain"])
         bump("fmt_" + world["fmt"])
+        if any(spec.get("kpm") for spec in world["comps"]):
+            bump("kpm_world")
+        if any(op[0] in ("get", "sl") and isinstance(op[2], str) and op[2].startswith("lin:") for op in ops):
+            bump("linop_twin_requested")
+        if any(op[0] in ("get", "sl") and isinstance(op[2], str) and op[2].startswith("int:") for op in ops):
+            bump("internal_requested")
         digest = batch.digest_of(env.events)
         nontrivial = self.nontrivial(case, counters, op_kinds, value_ops, special, depth_at_fault)
         return {"violation": violation, "digest": digest, "events": len(env.events), "nontrivial": nontrivial,
@@ -1053,6 +1113,11 @@ class GraphProp:
             fmt = "blocked"
         if domain == "sparse" and fmt == "scalar_vecs":
             fmt = "scalar_idx"
+        if domain == "dense" and r.random() < profile.get("p_implicit", 0.08):
+            fmt = "implicit"  # sparse H_0, eigenvectors of the explicit blocks only, last block implicit
+            nb = r.choice([2, 2, 3])
+            npert = min(npert, 2)
+            sizes = [r.choice([1, 2]) for _ in range(nb - 1)] + [r.choice([2, 3, 4])]
         box = BOX[npert]
         cand = [o for o in itertools.product(range(box + 1), repeat=npert) if 0 < sum(o) <= 3]
         if fmt == "list":
@@ -1099,6 +1164,20 @@ class GraphProp:
                          "solver": "default", "chain": 0, "d0_herm": False}
             if domain == "sparse":
                 comps[-1]["fd"] = None
+        if fmt == "implicit":
+            w["cap"] = 3 if npert == 1 else 2
+            w.pop("illposed", None)
+            w["complex_e"] = False
+            for spec in comps:
+                spec.pop("chain", None)
+                spec["solver"] = "default"
+                if isinstance(spec["fd"], dict):
+                    spec["fd"]["blocks"] = [b for b in spec["fd"]["blocks"] if b < nb - 1] or [0]
+                elif spec["fd"]:
+                    spec["fd"] = [b for b in spec["fd"] if b < nb - 1] or None
+                spec["kpm"] = bool(spec["herm"] and herm and r.random() < 0.3)
+                if spec["kpm"]:
+                    spec["fd"] = None if isinstance(spec["fd"], dict) else spec["fd"]
         w["comps"] = comps
         return w
 
